@@ -147,6 +147,7 @@ impl Prop for Seqs {
         // identity of their own here, but the placement model counts and removes them
         p.embed = 1;
         p.embed_nested = true;
+        p.nested = true;
         history_strategy(p, shape, false)
     }
 
